@@ -5,6 +5,7 @@ package main
 import (
 	"encoding/base64"
 
+	"github.com/edutko/decipher/internal/file"
 	"github.com/edutko/decipher/internal/util"
 )
 
@@ -30,6 +31,15 @@ func init() {
 		}
 		return "ok " + hx(dst[:n])
 	}
+	// b64jwt <segment>: is "e30.e30.<segment>" recognised as a JWT?  (the signature segment is only base64-decoded, so the
+	// answer must be the base64 verdict on the segment)
+	ops["b64jwt"] = func(a []string) string {
+		tok := append([]byte("e30.e30."), unhx(a[0])...)
+		if file.IsJWT("", tok, int64(len(tok))) {
+			return "true"
+		}
+		return "false"
+	}
 	gens["C14"] = genC14
 }
 
@@ -47,6 +57,9 @@ func genC14(tier string, r *rng) {
 	rec = func(prefix []byte, n int) {
 		if n == 0 {
 			emit("b64", hx(prefix))
+			if len(prefix) <= 4 {
+				emit("b64jwt", hx(prefix))
+			}
 			if len(prefix) <= 5 {
 				for _, e := range encNames {
 					emit("b64go", e, hx(prefix))
